@@ -50,6 +50,7 @@ type cfgData struct {
 	ctls        []ctl
 	recvTimeout bool
 	rounds      int
+	long        bool // one continuous outage; virtual durations are respected and the retry delays are judged
 }
 
 type harness struct{}
@@ -112,6 +113,21 @@ func configsBase(tier string) []xplore.Config {
 			}
 		}
 	}
+	// one long continuous outage (every attempt fails at once, in either way):
+	// the delays between attempts are judged. Sequential, long: default schedule
+	// plus one deviation.
+	n := 16
+	if tier == "thorough" {
+		n = 40
+	}
+	for _, kind := range []session{{refuse: true}, {msgs: "", end: "err"}, {msgs: "u", end: "err"}} {
+		var sc []session
+		for i := 0; i < n; i++ {
+			sc = append(sc, kind)
+		}
+		out = append(out, xplore.Config{Name: fmt.Sprintf("t1=%d x %s: one long outage, retry delays judged", n, kind), Bound: 1,
+			Data: cfgData{scripts: map[string][]session{"t1": sc}, targets: []string{"t1"}, recvTimeout: true, rounds: n + 2, long: true}})
+	}
 	return out
 }
 
@@ -129,6 +145,7 @@ type env struct {
 	log     []event
 	nstream map[string]int
 	vio     []xplore.Violation
+	dialAt  []time.Duration // virtual time of every connection attempt (long-outage configurations)
 }
 
 func (e *env) add(t, kind string, stream int, arg string) {
@@ -140,6 +157,7 @@ type connMgr struct{ e *env }
 func (c connMgr) Connection(ctx context.Context, addr, dialer string) (*grpc.ClientConn, func(), error) {
 	// the address is the target name: one next hop per target
 	t := addr
+	c.e.dialAt = append(c.e.dialAt, time.Duration(vrt.NowNanos()))
 	// the dial is in flight: a Reconnect or Remove may land here; a dial
 	// honours its context (gnmi_collector dials blocking, with a time-out)
 	vrt.Yield()
@@ -215,7 +233,13 @@ func (harness) Run(cfg xplore.Config, ch vrt.Chooser, trace bool) (xplore.Outcom
 	viol := func(class, format string, a ...interface{}) {
 		out.Violations = append(out.Violations, xplore.Violation{Class: class, Msg: fmt.Sprintf(format, a...)})
 	}
-	res := vrt.Run(ch, vrt.Options{Reverse: cfg.Reverse, Trace: trace, EarlyTimers: true}, func() {
+	// in a long-outage configuration durations matter: no early expiry, no jitter
+	rnd := manager.RetryRandomization
+	if d.long {
+		manager.RetryRandomization = 0
+	}
+	defer func() { manager.RetryRandomization = rnd }()
+	res := vrt.Run(ch, vrt.Options{Reverse: cfg.Reverse, Trace: trace, EarlyTimers: !d.long}, func() {
 		e := &env{d: d, nstream: map[string]int{}}
 		manager.VerifSetSubscribeClient(func(ctx context.Context, conn *grpc.ClientConn) (gpb.GNMI_SubscribeClient, error) {
 			// which target? the outgoing metadata carries nothing useful; the
@@ -348,6 +372,9 @@ func (harness) Run(cfg xplore.Config, ch vrt.Chooser, trace bool) (xplore.Outcom
 		}
 		for _, t := range d.targets {
 			e.check(t, viol)
+		}
+		if d.long {
+			e.checkDelays(viol)
 		}
 		var ob []string
 		for _, t := range d.targets {
@@ -586,6 +613,35 @@ func (e *env) checkWith(t string, guessNew bool, viol func(class, format string,
 	}
 	if cur.open && cur.ended && !cur.reset {
 		viol("stream-not-reset", "target %s: the last stream ended without a Reset\n  trace: %s", t, e.render(t))
+	}
+}
+
+// checkDelays judges the retry delays of one continuous outage: every attempt
+// failed at once, so the time between two attempts is the delay the retry loop
+// chose. "Retried with backoff": never sooner than the base delay, never later
+// than the cap (no jitter in this configuration), and never sooner than after
+// the previous failure of the same outage.
+func (e *env) checkDelays(viol func(class, format string, a ...interface{})) {
+	var ds []time.Duration
+	for i := 1; i < len(e.dialAt); i++ {
+		ds = append(ds, e.dialAt[i]-e.dialAt[i-1])
+	}
+	if len(ds) < e.d.rounds-3 {
+		viol("retry-stopped", "only %d attempts in %d rounds of a continuous outage", len(e.dialAt), e.d.rounds)
+		return
+	}
+	for i, d := range ds {
+		switch {
+		case d < manager.RetryBaseDelay:
+			viol("backoff-too-short", "attempt %d came %v after the previous failure, the base delay is %v; delays: %v", i+2, d, manager.RetryBaseDelay, ds)
+			return
+		case d > manager.RetryMaxDelay:
+			viol("backoff-above-cap", "attempt %d came %v after the previous failure, the cap is %v; delays: %v", i+2, d, manager.RetryMaxDelay, ds)
+			return
+		case i > 0 && d < ds[i-1]:
+			viol("backoff-collapsed", "attempt %d came %v after a failure, the attempt before it had waited %v: the delay shrank in the middle of one outage; delays: %v", i+2, d, ds[i-1], ds)
+			return
+		}
 	}
 }
 
